@@ -185,9 +185,83 @@ class Translator:
         raise Untranslatable("call %s" % norm_src(e))
 
 
+_PW = (sp.Min, sp.Max, sp.floor, sp.ceiling, sp.Abs, sp.Mod)
+
+
+def _abstract_pw(e, table):
+    """Replace every piecewise function application (min/max/floor/ceiling/abs/mod) by a symbol, bottom-up;
+    two applications get the same symbol iff they are the same function of provably equal arguments."""
+    if not e.args:
+        return e
+    args = [_abstract_pw(a, table) for a in e.args]
+    if isinstance(e, _PW) or e.func in _PW:
+        for (f, old_args), sym in table:
+            if f is e.func and len(old_args) == len(args):
+                if e.func in (sp.Min, sp.Max):
+                    # order-insensitive
+                    rest = list(old_args)
+                    ok = True
+                    for x in args:
+                        hit = [y for y in rest if _eq_analytic(x, y)]
+                        if not hit:
+                            ok = False
+                            break
+                        rest.remove(hit[0])
+                    if ok:
+                        return sym
+                elif all(_eq_analytic(x, y) for x, y in zip(args, old_args)):
+                    return sym
+        sym = sp.Symbol("PW%d_%s" % (len(table), e.func.__name__), real=True)
+        table.append(((e.func, args), sym))
+        return sym
+    try:
+        return e.func(*args)
+    except Exception:
+        return e
+
+
+def _eq_analytic(a, b):
+    r, _ = _equivalent_analytic(a, b)
+    return r is True
+
+
 def equivalent(a, b, samples=6):
     """Decide a == b as expressions over positive/real symbols.
-    Returns (True, None) | (False, witness) | (None, reason)."""
+    Returns (True, None) | (False, witness) | (None, reason).
+    Piecewise parts (min/max/floor/ceiling/abs) are compared structurally - same function of equal arguments -
+    because a numeric identity test at a few points cannot distinguish e.g. min(x, 8) from x."""
+    if a == b:
+        return True, None
+    a, b = sp.sympify(a), sp.sympify(b)
+    if a.has(*_PW) or b.has(*_PW):
+        table = []
+        a2 = _abstract_pw(a, table)
+        b2 = _abstract_pw(b, table)
+        r, w = _equivalent_analytic(a2, b2)
+        if r is True:
+            return True, None
+        wit = _numeric_witness(a - b)
+        return False, wit
+    return _equivalent_analytic(a, b, samples)
+
+
+def _numeric_witness(d):
+    syms = sorted(d.free_symbols, key=lambda s: s.name)
+    vals = [sp.Rational(3, 2), sp.Rational(7, 3), sp.Integer(10), sp.Integer(1000), sp.Rational(1, 10), sp.Integer(100000), sp.Rational(1, 1000)]
+    for k in range(len(vals) * 2):
+        sub = {s: vals[(i + k) % len(vals)] for i, s in enumerate(syms)}
+        try:
+            v = d.subs(sub)
+            for j, f in enumerate(sorted(v.atoms(sp.core.function.AppliedUndef), key=str)):
+                v = v.subs(f, vals[(j + k) % len(vals)])
+            if abs(complex(sp.N(v, 30))) > 1e-12:
+                return {str(s): str(x) for s, x in sub.items()}
+        except Exception:
+            continue
+    return None
+
+
+def _equivalent_analytic(a, b, samples=6):
     if a == b:
         return True, None
     try:
